@@ -66,7 +66,7 @@ def corpus():
 
 
 def rand_dbpm(rng):
-    return rng.choice([None, "", "*", "120", "120.5", "100:200", "90.5:91", "abc", "1:x", ":", "1:2:3", " 150 ", "-5", "x:1"])
+    return rng.choice([None, "", "*", "120", "120.5", "100:200", "90.5:91", "150:150", "180:180.000", "abc", "1:x", ":", "1:2:3", " 150 ", "-5", "x:1"])
 
 
 def gen(rng, i, tier):
@@ -79,7 +79,7 @@ def gen(rng, i, tier):
     if v is not None:
         sf.append(["VERSION", v])
     sf.append(["BPMS", rng.choice(["0.000=120.000", "0.000=100,\n4.000=50.5,\n9=200", "0=60",
-                                   "0.000=100,\n0.000=200", "0.000=60,\n0.010=240,\n4=120", "0=90,\n4=180,\n4.000=45"])])     # rows sharing a beat (or a tick) are all kept
+                                   "0.000=100,\n0.000=200", "0.000=60,\n0.010=240,\n4=120", "0=90,\n4=180,\n4.000=45", "0=128,\n32=128", "0=128,\n8=128.000,\n9=128"])])     # rows sharing a beat (or a tick) are all kept
     for key in ("OFFSET", "STOPS", "DELAYS", "WARPS", "FREEZES"):
         st = rng.choice(["absent", "empty", "value"])
         if key == "FREEZES" and (kind != "SM" or rng.random() < 0.6):
